@@ -336,7 +336,17 @@ _DATA_CALLS = {"str", "float", "int", "round", "abs", "len", "repr", "format", "
 _STR_METHODS = {"lower", "upper", "strip", "lstrip", "rstrip", "replace", "capitalize", "title", "removeprefix", "removesuffix", "format", "get"}
 
 
-def _opaque_holes(v, surface):
+def _getter_names(pkg, file):
+    """module-level names bound to operator.attrgetter(..) / itemgetter(..): calling one reads data off its argument"""
+    out = set()
+    for st in pkg.modules[file].body if file in pkg.modules else []:
+        if isinstance(st, ast.Assign) and len(st.targets) == 1 and isinstance(st.targets[0], ast.Name) and isinstance(st.value, ast.Call) \
+                and ast.unparse(st.value.func).split(".")[-1] in ("attrgetter", "itemgetter"):
+            out.add(st.targets[0].id)
+    return out
+
+
+def _opaque_holes(v, surface, getters=()):
     """holes of a rate template that paste TEXT produced by a call the reconstruction could not follow (a helper that was not
     inlined, a method of a record): whatever identifiers that text contains were not looked at.  Data holes -- attribute reads,
     `x or default`, subscripts, str()/float() of data, string methods of a name, the shared surface-rate helper (read on its own) -- are fine."""
@@ -347,7 +357,7 @@ def _opaque_holes(v, surface):
                 continue
             if x[0] == "unknown":
                 out.append(x)
-            elif x[0] == "call" and len(x) == 4 and not (x[1][0] == "global" and x[1][1] in _DATA_CALLS):
+            elif x[0] == "call" and len(x) == 4 and not (x[1][0] == "global" and (x[1][1] in _DATA_CALLS or x[1][1] in getters)):
                 out.append(x)
             elif x[0] == "meth" and len(x) == 5 and not (x[2] in _STR_METHODS or (x[1] == SELF and x[2] == surface)):
                 out.append(x)
@@ -366,7 +376,7 @@ def _r2(ctx, rm, pkg, regs, protos, consts, universal):
                     if v.defined_in != cls:
                         continue
                     if v.kind == "text":
-                        for x in _opaque_holes(v, surface)[:1]:
+                        for x in _opaque_holes(v, surface, _getter_names(pkg, v.file))[:1]:
                             ctx.unrec("R2", f"{cls}.{m}:pasted text", (v.file, v.line), f"the rate expression pastes text computed by `{show(x)[:80]}`, which the reconstruction "
                                       "could not follow: the identifiers in that text are not checked")
                     elif v.kind not in ("raise", "notimplemented", "delegate"):
